@@ -49,6 +49,10 @@ func init() {
 			r.Try(func() { ruleSnapshotFieldsNotMutatedInPlace(w, r, "R11.6", la) })
 			r.Rule("R11.7", 8, "a scope that is created while its parent or the provider is closing is refused (typestate of the tables Close resets): otherwise it outlives, and is disposed after, its owner")
 			r.Try(func() { checkTypestateAs(w, r, la, "R11.7") })
+			r.Rule("R11.8", 1, "a scope's context is cancelled only after its cascade over the children has finished (children's contexts derive from it and their watchers would close them concurrently)")
+			r.Try(func() { ruleCancelAfterCascade(w, r, "R11.8") })
+			r.Rule("R11.9", 2, "the cascade waits for a Close of a descendant that is in progress in a watcher goroutine")
+			r.Try(func() { ruleCascadeAwaits(w, r, "R11.9") })
 		})
 
 	register("C12",
@@ -69,6 +73,10 @@ func init() {
 			r.Try(func() { ruleTracking(w, r, "R12.6", "", "") })
 			r.Rule("R12.7", 3, "Close closes owned scopes itself, synchronously: a scope's context is cancelled only by that scope's own Close, so no Close hands an owned scope to the asynchronous watcher whose result nobody receives")
 			r.Try(func() { ruleCancelOwnership(w, r, "R12.7") })
+			r.Rule("R12.8", 1, "a scope's context is cancelled only after its cascade over the children has finished: otherwise the children's watchers win their gates and the errors of the subtree are lost")
+			r.Try(func() { ruleCancelAfterCascade(w, r, "R12.8") })
+			r.Rule("R12.9", 2, "the cascade waits for a Close of a descendant that is in progress in a watcher goroutine (its errors belong to this Close's result)")
+			r.Try(func() { ruleCascadeAwaits(w, r, "R12.9") })
 		})
 
 	register("C13",
